@@ -848,4 +848,8 @@ def check(run: Run) -> None:
     from . import c05
 
     c05.check_prepass_protection(run, "R07.5")
+    # receipts carry line/column: lines are counted the way the lexer counts them ("\n" only) - the same rule as C02 R02.9
+    from . import c05 as _c05
+
+    _c05.check_prelex_text(run, "R07.6")
     run.assume("the multiset equality between injected rewrites and receipts on concrete documents (exact original text, line, column of each occurrence) is not decided; only the pairing, bookkeeping and wiring conditions above")
